@@ -582,6 +582,9 @@ fn run_families(ctx: &Ctx) {
 }
 
 pub fn run(ctx: &Ctx) {
+    if !crate::pipeline::DRIVER_SRC {
+        ctx.note("the driver's pure modules (preprocess.rs, error_helper.rs, print.rs) of the working tree do not compile stand-alone into the harness: in-process calls of preprocess() and of the print reader are replaced by stubs; the CLI parts decide for them");
+    }
     ctx.set_rule("(a) proptest: valid programs from the C11/C13/C08/C12 generators and a list of ~160 hand-picked fragments (empty, blank, single tokens, every prefix of a macro / procedure / print / string definition, no final newline, CR-LF, NUL, BOM, non-ASCII in code, comments and strings, huge numbers in every numeric context, direct loader lines like 'dw [40000]'), subjected to 0-3 byte-level mutations (flip / insert a special byte or multi-byte character / delete / duplicate a span / truncate anywhere / strip the final newline / CR-LF / raw high byte) or token-level mutations (drop, duplicate, swap, replace by a grammar word); every text goes to the driver's own preprocess() (after the driver's comment stripping) and, whole and line by line, to the data loader, the interpreter and the print reader under catch_unwind in a build with overflow checks; (b) a seeded subset goes to the CLI as a file (raw bytes, possibly invalid UTF-8) with closed stdin: exit 0 (or 1 with 'Error Reading file' for non-UTF-8), some output, never a panic or signal; (c) 14 size/depth families (lines, labels, data items, macro parameters, macro chain, macro uses, string length, procedures, nested brackets, digits, undefined labels, one long line, blank lines, error after n lines) with n doubling from 250 in a child process: normal exit, output bytes and peak memory proportional (deterministic bounds), CPU growth only ever reported as inconclusive. Non-trivial = exactly one mutation (differs from a valid program in one place) or a family member with n >= 1000.");
     ctx.assume("mutated programs given to the CLI have 'start:' renamed so that they cannot start running (a mutated program may legitimately loop forever); unmutated terminating programs are run as they are");
     ctx.assume("exit status 1 with 'Error Reading file' is the documented answer to a file that is not valid UTF-8");
@@ -611,6 +614,23 @@ pub fn run(ctx: &Ctx) {
     }
     let ncli = ctx.tier.pick(1_200usize, 20_000usize);
     run_cases(ctx, "c15-cli", ncli, tcase_s, eval_cli, |c| json!({"cli_text": String::from_utf8_lossy(&cli_bytes(c).0).chars().take(300).collect::<String>()}));
+    // valid terminating programs as they are (run to completion by the real driver loop): labels at the very end,
+    // explicit hlt before a trailing label, procedures, prints, with and without a final newline
+    let nvalid = ctx.tier.pick(500usize, 6_000usize);
+    run_cases(
+        ctx,
+        "c15-cli-valid",
+        nvalid,
+        || (crate::gen::gencfg_s(16, 3), proptest::collection::vec(any::<u8>(), 16), any::<bool>(), any::<bool>()),
+        |(g, ch, nl, pack)| {
+            let mut g = g.clone();
+            g.with_prints = true;
+            g.label_before_proc = false;
+            let text = render_program(&crate::gen::build_program(&g), &crate::progs::Layout { choices: ch.clone(), comments: true, trailing_newline: *nl, pack_lines: *pack }).text;
+            eval_cli(&TCase { base: text, ops: vec![], runnable: true })
+        },
+        |(g, ch, nl, pack)| json!({"valid_program": render_program(&crate::gen::build_program(g), &crate::progs::Layout { choices: ch.clone(), comments: true, trailing_newline: *nl, pack_lines: *pack }).text}),
+    );
     for s in specials() {
         let c = TCase { base: s, ops: vec![], runnable: true };
         ctx.add_evals(1);
